@@ -68,7 +68,16 @@ pub fn gen_assertion(c: &mut Ctx, cfg: &GenCfg, depth: usize) -> String {
 
 pub fn gen_env(c: &mut Ctx, cfg: &GenCfg, depth: usize) -> String {
     if depth == 0 { return gen_leaf(c, cfg); }
-    match c.rng.below(10) {
+    match c.rng.below(11) {
+        10 => {
+            // a node whose subject is itself a node (only reachable through uncompress_subject / decrypt_subject / decode)
+            let inner = { let s = gen_leaf(c, cfg); let a = gen_assertion(c, cfg, 0); let n = c.assign(&format!("add {} {}", s, a)); if c.rng.chance(1, 2) { let b = gen_assertion(c, cfg, 0); c.assign(&format!("add {} {}", n, b)) } else { n } };
+            let z = c.assign(&format!("compress {}", inner));
+            let a = gen_assertion(c, cfg, depth - 1);
+            let outer = c.assign(&format!("add {} {}", z, a));
+            let u = c.assign(&format!("uncompress_subject {}", outer));
+            if c.is_ok(&u) { c.count("gen:node-subject-node"); u } else { inner }
+        }
         0..=2 => gen_leaf(c, cfg),
         3 => { let inner = gen_env(c, cfg, depth - 1); c.assign(&format!("wrap {}", inner)) }
         4 => gen_assertion(c, cfg, depth - 1),
